@@ -41,12 +41,16 @@ type PairCase struct {
 	Mode    string    `json:"mode"`
 }
 
+// pairsProp is the property the current run decides (C04 runs add an unkeyed list to input a).
+var pairsProp string
+
 func pairsCmd(args []string) *rep.Result {
 	fs := flag.NewFlagSet("pairs", flag.ExitOnError)
 	var c common
 	c.register(fs)
 	modes := fs.String("modes", "c03", "replay modes: c03,c05")
 	fs.Parse(args)
+	pairsProp = c.prop
 	res := rep.New()
 	defer func() { res.Write(c.out) }()
 	cp, err := conc.Load(c.corpus)
@@ -333,10 +337,23 @@ func runPair(l *PairLine, pkg *reg.Pkg, x *conc.Ctx, mode string, res *rep.Resul
 			res.Violate("C03", sig("atomic-sound-complete"), fmt.Sprintf("applying DiffWithAtomic(a,b) to a does not give b (leaves and order): %s; notifications %v", strings.Join(d, "; "), ns), pc)
 		}
 	case "c05":
-		for _, ow := range []bool{false, true} {
+		prop04 := pairsProp == "C04"
+		augmented := false
+		for _, variant := range []string{"plain", "overwrite", "emptymaps"} {
+			ow := variant == "overwrite"
 			var opts []ygot.MergeOpt
 			want := l.Compat
 			name := "MergeStructs"
+			if variant == "emptymaps" {
+				// keyed lists without entries held as empty non-nil maps, merged with MergeEmptyMaps
+				ra, rb = fresh(&l.A), fresh(&l.B)
+				ta = conc.Restrict(abs.Project(ra, pkg), x.V)
+				if abs.AllocEmptyMaps(ra)+abs.AllocEmptyMaps(rb) == 0 {
+					continue
+				}
+				opts = append(opts, &ygot.MergeEmptyMaps{})
+				name = "MergeStructs(emptymaps)"
+			}
 			if ow {
 				opts = append(opts, &ygot.MergeOverwriteExistingFields{})
 				want = l.CompatOw
@@ -344,6 +361,15 @@ func runPair(l *PairLine, pkg *reg.Pkg, x *conc.Ctx, mode string, res *rep.Resul
 				// fresh inputs: where the first result aliases an input (a C04 matter), the
 				// Scramble below has changed ra/rb, which must not leak into this C05 verdict
 				ra, rb = fresh(&l.A), fresh(&l.B)
+				ta = conc.Restrict(abs.Project(ra, pkg), x.V)
+			}
+			if mode == "c05" && prop04 && variant == "plain" {
+				// C04 runs: input a also carries an unkeyed list with two elements
+				ra, rb = fresh(&l.A), fresh(&l.B)
+				if augmentUnkeyed(ra, pkg, x) > 0 {
+					ta = conc.Restrict(abs.Project(ra, pkg), x.V)
+					augmented = true
+				}
 			}
 			var m ygot.GoStruct
 			merr, pan := guard(func() error {
@@ -371,7 +397,7 @@ func runPair(l *PairLine, pkg *reg.Pkg, x *conc.Ctx, mode string, res *rep.Resul
 				continue
 			}
 			got := conc.Restrict(abs.Project(m, pkg), x.V)
-			if d := abs.Diff(observable(got, x, false), observable(conc.Restrict(exp, x.V), x, false), false); len(d) > 0 {
+			if d := abs.Diff(observable(got, x, false), observable(conc.Restrict(exp, x.V), x, false), false); len(d) > 0 && !augmented {
 				s["conjunct"] = "union"
 				res.Violate("C05", s, fmt.Sprintf("%s result is not the union: %s; a=%v b=%v", name, strings.Join(d, "; "), ta.Lines(), tb.Lines()), pc)
 				continue
